@@ -11,16 +11,22 @@ def run():
         print(log[-4000:])
         print("ERROR: Coq build failed")
         return 2
-    core.build_model()
-    # warm the Go build cache for every overlay package
-    root = os.path.join(core.VERIF, "harness", "overlay")
-    pkgs = []
-    for d, _, files in os.walk(root):
-        if any(f.endswith(".go") for f in files):
-            pkgs.append(os.path.relpath(d, root))
-    for p in sorted(pkgs):
-        core.go_test_bin(p)
-        print("built test binary for", p)
+    import importlib
+    for i in range(1, 21):
+        pid = "c%02d" % i
+        try:
+            mod = importlib.import_module("vlib.props." + pid)
+        except ModuleNotFoundError:
+            continue
+        prop = mod.PROP
+        if getattr(prop, "not_applicable", None):
+            continue
+        core.build_model(prop)
+        for tag, pkg in prop.packages.items():
+            core.go_test_bin(prop, pkg)
+        if hasattr(prop, "setup"):
+            prop.setup()
+        print("built model + test binaries for", prop.id)
     print("setup ok")
     return 0
 
